@@ -153,6 +153,16 @@ func (ld *Loader) evalType(pkgPath string, text string) types.Type {
 			return tv.Type
 		}
 	}
+	// imp.name with an unexported name (types.Eval refuses it): look the name up in the imported package
+	if i := strings.Index(text, "."); i > 0 && !strings.ContainsAny(text, "[]*( ") {
+		for _, ip := range pkg.Imports {
+			if ip.Types != nil && ip.Types.Name() == text[:i] {
+				if tn, ok := ip.Types.Scope().Lookup(text[i+1:]).(*types.TypeName); ok {
+					return tn.Type()
+				}
+			}
+		}
+	}
 	return nil
 }
 
